@@ -41,5 +41,15 @@ def go (seq : Nat) : Nat → Nat → List Ev → Nat × Res     -- retriesLeft, 
 
 def send (seq N : Nat) (es : List Ev) : Nat × Res := go seq N 1 es
 
+/-- the same loop with the retry budget at the width the code gives it (`upf.maxReqRetries` is a `uint8`): `retriesLeft > 0`,
+`retriesLeft--` on 8-bit values -/
+def goU8 (seq : Nat) : BitVec 8 → Nat → List Ev → Nat × Res
+  | _, tx, [] => (tx, .pending)
+  | r, tx, .timeout :: es => if r > 0#8 then goU8 seq (r - 1#8) (tx+1) es else (tx, .dead)
+  | r, tx, .resp s :: es => if s = seq then (tx, .answered) else goU8 seq r tx es
+  | _, tx, .shutdown :: _ => (tx, .aborted)
+
+def sendU8 (seq : Nat) (N : BitVec 8) (es : List Ev) : Nat × Res := goU8 seq N 1 es
+
 end Retry
 
